@@ -65,6 +65,11 @@ func main() {
 		}
 		return
 	}
+	if os.Args[1] == "debug-layout" {
+		c := core.NewCtx("DBG", "quick")
+		rules.DebugLayout(c)
+		return
+	}
 	if os.Args[1] == "debug-siblings" {
 		c := core.NewCtx("DBG", "quick")
 		rules.DebugSiblings(c)
